@@ -37,7 +37,10 @@ func genSkipStream(c *sim.Ctx, st *sim.Stream, maxDepth int) (items []skipItem, 
 	for i := 0; i < nv; i++ {
 		var v *ref.Value
 		note := ""
-		switch st.Pick(6, 2, 2, 1) {
+		switch st.Pick(6, 2, 2, 1, 1) {
+		case 4:
+			v = ref.GenWide(st, []int{63, 64, 65, 66, 70, 130, 200}[st.Choose(7)])
+			note = "wide"
 		case 0:
 			budget := []int{64, 600, 6000, 20000}[st.Pick(3, 3, 2, 1)]
 			v = ref.GenValue(st, ref.GenType(st), o, 0, &budget)
@@ -48,8 +51,13 @@ func genSkipStream(c *sim.Ctx, st *sim.Stream, maxDepth int) (items []skipItem, 
 			v = ref.GenPair(st, ref.AllTypes[k/11], ref.AllTypes[k%11], o, &budget)
 			note = "pair"
 		case 2:
-			d := 1 + st.Choose(maxDepth)
+			// siblings generated next to the chain child may nest one level deeper than the
+			// chain itself: keep the whole value within the 63 levels the property speaks of
+			d := 1 + st.Choose(maxDepth-1)
 			v = ref.GenChain(st, d, o)
+			if ref.Depth(v) > maxDepth {
+				panic("harness invariant broken: generated chain deeper than intended")
+			}
 			if d >= 32 {
 				c.Count("probe.depth_ge_32")
 			}
